@@ -11,6 +11,7 @@ import (
 	"reflect"
 	"strconv"
 	"strings"
+	"time"
 
 	"github.com/bolkedebruin/rdpgw/cmd/rdpgw/identity"
 	"github.com/bolkedebruin/rdpgw/cmd/rdpgw/rdp"
@@ -395,8 +396,75 @@ func c19(env *Env, rep *Report) {
 			}
 		}
 	}
+	if env.Shard == 0 || env.NShards == 1 {
+		distinct += c19TemplateReplaced(dir, gwURL, rep)
+	}
 	rep.outcome("marshal")
 	rep.sample(map[string]any{"builder_default_output": rdp.NewBuilder().String(), "settings": st.NumField(), "parser_alphabet": string(alpha), "parser_max_len": maxLen})
 	rep.add("distinct", int64(distinct))
 	rep.add("states", int64(distinct))
+}
+
+// c19TemplateReplaced: ONE download handler while the administrator replaces the template: other settings, a
+// malformed line, a good one again - written in place, with the modification time set back an hour (cp -p,
+// rsync -t, a package install), with the modification time of the file it replaces, and a minute ahead. After
+// every replacement the handler's file is what a fresh handler makes of the template as it is now.
+func c19TemplateReplaced(dir string, gwURL *url.URL, rep *Report) int {
+	tpl := filepath.Join(dir, "template-replaced.rdp")
+	mk := func() *web.Handler {
+		return (&web.Config{HostSelection: "roundrobin", Hosts: []string{"target.example:3389"}, GatewayAddress: gwURL, TemplateFile: tpl, PAATokenGenerator: c19Token}).NewHandler()
+	}
+	dl := func(h *web.Handler) (int, string) {
+		id := identity.NewUser()
+		id.SetUserName("alice")
+		id.SetAuthenticated(true)
+		r := identity.AddToRequestCtx(id, httptest.NewRequest("GET", "https://gw.example/connect", nil))
+		rec := httptest.NewRecorder()
+		h.HandleDownload(rec, r)
+		if rec.Code != 200 {
+			return rec.Code, ""
+		}
+		return rec.Code, rec.Body.String()
+	}
+	contents := []string{
+		"audiomode:i:2\r\nkeyboardhook:i:1\r\n",
+		"screen mode id:i:1\r\nsmart sizing:i:1\r\n",
+		"audiomode:i:2\r\nkeyboardhook:i:\r\n", // malformed: an integer without a value
+		"audiomode:i:1\r\n",
+		"this line is not a setting\r\n",
+		"keyboardhook:i:0\r\naudiomode:i:2\r\n",
+	}
+	n := 0
+	for _, how := range []string{"in-place", "mtime-an-hour-back", "mtime-of-the-replaced-file", "mtime-a-minute-ahead"} {
+		os.WriteFile(tpl, []byte(contents[0]), 0o644)
+		h := mk()
+		dl(h)
+		for round := 1; round <= 2*len(contents); round++ {
+			c := contents[round%len(contents)]
+			old, _ := os.Stat(tpl)
+			os.WriteFile(tpl, []byte(c), 0o644)
+			switch how {
+			case "mtime-an-hour-back":
+				t := time.Now().Add(-time.Hour)
+				os.Chtimes(tpl, t, t)
+			case "mtime-of-the-replaced-file":
+				if old != nil {
+					os.Chtimes(tpl, old.ModTime(), old.ModTime())
+				}
+			case "mtime-a-minute-ahead":
+				t := time.Now().Add(time.Minute)
+				os.Chtimes(tpl, t, t)
+			}
+			n++
+			rep.add("executions", 1)
+			gc, gb := dl(h)
+			wc, wb := dl(mk())
+			rep.outcome(fmt.Sprintf("template-replaced %s status=%d fresh=%d same=%v", how, gc, wc, gb == wb))
+			if gc != wc || gb != wb {
+				rep.violate("C19/file-not-from-the-template-as-it-is/"+how, fmt.Sprintf("template replaced (%s) by %q: the serving handler answers %d %.120q, a fresh handler over the same file %d %.120q", how, c, gc, gb, wc, wb), map[string]any{"noreplay": true})
+				break
+			}
+		}
+	}
+	return n
 }
